@@ -48,7 +48,7 @@ FUNCTIONS = ['band_init_stats', 'band_update_stats', 'band_choose_hello_time', '
              'mapping_reset_inactive_timeout', 'session_table_is_empty', 'session_table_all_complete',
              'session_table_update_complete_status', 'session_table_clear',
              'mac_equal', 'mac_copy', 'session_table_find', 'session_table_add', 'session_table_remove',
-             'switch_state_mapping', 'switch_state_session', 'switch_state_enumeration']
+             'switch_state_mapping', 'switch_state_session', 'switch_state_enumeration', 'automata_tick']
 
 
 class Unsupported(Exception):
@@ -148,9 +148,13 @@ class Fn:
         self.dead = set()
         self.arr_params = {}
         self.const_params = set()
+        self.extra_structs = []
+        self.assumed_present = set()
         self.optptr = {}        # local pointer that may be NULL (result of a pointer-returning translated function): name -> place builder
         self.ret_base = None    # for a function returning `T *`: the place (below a pointer parameter) every non-NULL result points into
         self.aux = []
+        self.nstages = 0
+        self.staged = sum(1 for x in walk(self.body) if x.get('kind') in ('IfStmt', 'ForStmt', 'CallExpr')) > 25
         self.emitted = None
         self.ret_elem = None
         self.last_call_places = {}
@@ -201,8 +205,35 @@ class Fn:
             idx = self.nat(n['inner'][1])
             return base + [('i', idx, ak[1])]
         if k == 'UnaryOperator' and n.get('opcode') == '*':
+            m = strip(n['inner'][0])
+            while m.get('kind') == 'ImplicitCastExpr':
+                m = strip(m['inner'][0])
+            comp = self.companion(m, kind_of(n['type']))
+            if comp:
+                return [('f', comp)]
             raise Unsupported('%s: dereference of a computed pointer' % self.name)
         raise Unsupported('%s: lvalue of kind %s' % (self.name, k))
+
+    def companion(self, m, pointee_kind, struct_name=None):
+        """`param->member` with `member` a pointer: the object it points to becomes an extra parameter `param_member` of the
+        translated function (assumed present and not aliasing anything else); returns its field name or None"""
+        if m.get('kind') != 'MemberExpr' or kind_of(m['type'])[0] != 'ptr':
+            return None
+        base = strip(m['inner'][0])
+        while base.get('kind') == 'ImplicitCastExpr':
+            base = strip(base['inner'][0])
+        if base.get('kind') != 'DeclRefExpr' or base['referencedDecl']['name'] not in self.ptr_params:
+            return None
+        name = '%s_%s' % (lname(base['referencedDecl']['name']), m['name'])
+        if struct_name is not None:
+            self.add_field(name, lname(struct_name), None)
+            self.extra_structs.append(struct_name)
+        elif pointee_kind[0] in ('u', 's', 'b'):
+            self.add_field(name, lean_type(pointee_kind, None), None)
+        else:
+            return None
+        self.assumed_present.add('%s->%s' % (base['referencedDecl']['name'], m['name']))
+        return name
 
     def read(self, place, s='s'):
         t = s
@@ -263,6 +294,11 @@ class Fn:
                 m0 = strip(sub)
                 if m0.get('kind') == 'DeclRefExpr' and m0['referencedDecl']['name'] in self.optptr:
                     return ('s.%s_idx.isSome' % lname(m0['referencedDecl']['name']), ('b', 1))
+                mm = strip(sub)
+                while mm.get('kind') == 'ImplicitCastExpr':
+                    mm = strip(mm['inner'][0])
+                if self.member_of_param(mm):
+                    return ('true', ('b', 1))
                 self.nonnull(sub)
                 return ('true', ('b', 1))
             if ck == 'IntegralToBoolean':
@@ -291,6 +327,8 @@ class Fn:
         if k in ('MemberExpr', 'ArraySubscriptExpr'):
             kd = kind_of(n['type'])
             if kd[0] not in ('u', 's', 'b'):
+                if kd[0] in ('ptr', 'fn') and self.member_of_param(n):
+                    return ('()', ('ptr', ''))
                 if kd[0] == 'ptr':
                     raise Unsupported('%s: read of pointer member %s' % (self.name, n.get('name')))
                 raise Unsupported('%s: read of a non-scalar (%s)' % (self.name, qual(n['type'])))
@@ -314,6 +352,10 @@ class Fn:
                 return ('((%d - %s) %% %d)' % (2 ** kd[1], t, 2 ** kd[1]), kd)
             if op == '+':
                 return self.expr(sub)
+            if op == '*':
+                if kd[0] in ('u', 's', 'b'):
+                    return (self.read(self.place(n)), kd)
+                raise Unsupported('%s: dereference yielding a non-scalar' % self.name)
             if op == '~' and kd[0] == 'u':
                 t, sk = self.expr(sub)
                 return ('(%d - %s)' % (2 ** kd[1] - 1, t), kd)
@@ -473,6 +515,8 @@ class Fn:
                 m0 = strip(m0['inner'][0])
             if m0.get('kind') == 'DeclRefExpr' and m0['referencedDecl']['name'] in self.optptr:
                 return 's.%s_idx.isSome' % lname(m0['referencedDecl']['name'])
+            if self.member_of_param(m0):
+                return 'true'
             self.nonnull(n)
             return 'true'
         return '(%s != 0)' % t
@@ -489,6 +533,18 @@ class Fn:
         if kd[0] == 's':
             return '(Int.toNat %s)' % t
         raise Unsupported('%s: index of kind %r' % (self.name, kd))
+
+    def member_of_param(self, m):
+        """`param->member` with a pointer (or function pointer) member: assumed non-NULL, recorded"""
+        if m.get('kind') != 'MemberExpr' or kind_of(m['type'])[0] not in ('ptr', 'fn'):
+            return False
+        base = strip(m['inner'][0])
+        while base.get('kind') == 'ImplicitCastExpr':
+            base = strip(base['inner'][0])
+        if base.get('kind') == 'DeclRefExpr' and base['referencedDecl']['name'] in self.ptr_params:
+            self.assumed_present.add('%s->%s' % (base['referencedDecl']['name'], m['name']))
+            return True
+        return False
 
     def nonnull(self, n):
         """a pointer tested for NULL must be a pointer parameter (assumed non-NULL) or an alias / result handled elsewhere"""
@@ -544,7 +600,18 @@ class Fn:
         lines.append(pad + 's')
         return lines
 
+    def stage(self, stmts):
+        """(large functions only) a block of statements as its own named definition `f.stK env s`, so that the equality proofs can
+        treat the function as a composition of small steps"""
+        b = self.block(stmts, 1)
+        self.nstages += 1
+        nm = '%s.st%d' % (self.name, self.nstages)
+        self.aux.append(['def %s (env : Env) (s : %s.S) : %s.S :=' % (nm, self.name, self.name)] + b + [''])
+        return nm
+
     def paren_block(self, stmts, ind):
+        if self.staged and not self.loopvars and len(stmts) >= 2:
+            return ['  ' * ind + '(%s env s)' % self.stage(stmts)]
         b = self.block(stmts, ind + 1)
         return ['  ' * ind + '('] + b[:-1] + [b[-1] + ')']
 
@@ -562,6 +629,17 @@ class Fn:
             callee = callee['inner'][0]
         nm = callee.get('referencedDecl', {}).get('name')
         args = n['inner'][1:]
+        if callee.get('kind') == 'MemberExpr' and self.member_of_param(callee):
+            # a callback of the port: what it does is outside the core; the translation counts the calls
+            for a in args:
+                if not self.pure(a):
+                    raise Unsupported('%s: side effect in a callback argument' % self.name)
+            base = strip(callee['inner'][0])
+            while base.get('kind') == 'ImplicitCastExpr':
+                base = strip(base['inner'][0])
+            f = '%s_%s_calls' % (lname(base['referencedDecl']['name']), callee['name'])
+            self.add_field(f, 'Nat', '0')
+            return ([pad + 'let s := { s with %s := s.%s + 1 }' % (f, f)], None, None)
         if nm in CLOCKS:
             return ([], CLOCKS[nm], ('u', 64))
         if nm and nm.startswith('lltd_port_log'):
@@ -658,6 +736,8 @@ class Fn:
         pad = '  ' * ind
         k = n['kind']
         if k == 'CompoundStmt':
+            if self.staged and not self.loopvars and len(n['inner']) >= 2:
+                return [pad + 'let s := %s env s' % self.stage(n['inner'])]
             b = self.block(n['inner'], ind + 1)
             return [pad + 'let s := ('] + b[:-1] + [b[-1] + ')']
         if k == 'NullStmt':
@@ -689,6 +769,15 @@ class Fn:
                                 snap.append(a)
                         self.alias[nm] = snap
                         continue
+                    mm = m
+                    while mm.get('kind') in ('CStyleCastExpr', 'ImplicitCastExpr', 'ParenExpr'):
+                        mm = mm['inner'][0]
+                    pointee = re.sub(r'^struct ', '', kd[1])
+                    if mm.get('kind') == 'MemberExpr' and pointee in self.tr.structs:
+                        comp = self.companion(mm, None, struct_name=pointee)
+                        if comp:
+                            self.alias[nm] = [('f', comp)]
+                            continue
                     if m.get('kind') == 'CallExpr' and self._callee(m) in self.tr.wanted and self._callee(m) != self.name:
                         g = self.tr.fn(self._callee(m))
                         g.ensure_emitted()
@@ -1061,7 +1150,7 @@ class Translator:
         # structures needed
         needed = []
         for f in fns:
-            needed += list(f.ptr_params.values())
+            needed += list(f.ptr_params.values()) + list(f.extra_structs)
         emitted = []
         slines = []
         def emit_struct(nm):
